@@ -16,7 +16,7 @@ from ..tlc import TLCError
 
 # violation keys of behaviour modelled beyond the statement of the property (reported, never an alarm)
 BEYOND = ("from-parities:", "concatenate:")
-INV = ["MechanismEqualsDefinition", "ConstantContributesCoefficient", "CountsSumToShots", "TalliesSumToShots", "PairTalliesAreProductTallies", "MeanFromTallies", "TallyValueIsMean", "PrecisionBounded", "EmitStats"]
+INV = ["MechanismEqualsDefinition", "ConstantContributesCoefficient", "CountsSumToShots", "TalliesSumToShots", "PairTalliesAreProductTallies", "MeanFromTallies", "ComplementLaw", "TallyValueIsMean", "PrecisionBounded", "EmitStats"]
 
 
 def fr(q):
@@ -74,6 +74,24 @@ def check_case(ctx, c):
             out.append(("covariances:bessel", "%s: Bessel covariances %s, (corr - mean*mean)/(N-1) = %s" % (desc, np.asarray(evb.estimator_covariances[0]).real.tolist(), covb.tolist())))
         if np.max(np.abs(np.asarray(evb.values) - np.array(means))) > tol:
             out.append(("means:bessel", "%s: Bessel flag changed the expectation values" % desc))
+    # the operator handed over as a bare PauliTerm (the argument is a PauliRepresentation): one value, 1x1 frames
+    from orquestra.quantum.operators import PauliTerm
+
+    for i, t in enumerate(c["op"]):
+        bare = PauliTerm({q: "Z" for q in t["sup"]}, float(fr(t["c"])))
+        try:
+            evt = m.get_expectation_values(bare)
+            vals = [complex(v) for v in np.asarray(evt.values).reshape(-1)]
+            c0 = np.asarray(evt.correlations[0]).astype(complex)
+            v0 = np.asarray(evt.estimator_covariances[0]).astype(complex)
+        except Exception as ex:
+            out.append(("bare-term:raised", "%s: get_expectation_values(%s) (a bare PauliTerm) raised %r" % (desc, bare, ex)))
+            continue
+        if len(vals) != 1 or abs(vals[0] - means[i]) > tol or c0.shape != (1, 1) or abs(c0[0, 0] - corr[i, i]) > tol or v0.shape != (1, 1) or abs(v0[0, 0] - cov[i, i]) > tol:
+            out.append(("bare-term", "%s: for the bare term %s: values %s correlations %s covariances %s, sample statistics %s / %s / %s" % (desc, bare, vals, c0.tolist(), v0.tolist(), means[i], corr[i, i], cov[i, i])))
+        part = get_parities_from_measurements(list(shots), bare)
+        if np.asarray(part.values).tolist() != [list(c["tallies"][i])]:
+            out.append(("bare-term:parities", "%s: parity tallies of the bare term %s are %s, specification %s" % (desc, bare, np.asarray(part.values).tolist(), [list(c["tallies"][i])])))
     # counts / distribution
     counts = m.get_counts()
     want = {"".join(map(str, e["t"])): e["n"] for e in c["counts"]}
@@ -124,6 +142,31 @@ def check_case(ctx, c):
         out.append(("concatenate:order", "%s: covariance frames are not concatenated in order" % desc))
     if len(ev_a.values) != len(c["op"]) or nfr(ev_a.correlations) != 1:
         out.append(("concatenate:mutated", "%s: concatenation modified its first argument" % desc))
+    # histograms that share their outcome SET but not their insertion order, and ONE dictionary object that is refilled
+    # in place with a histogram of the same size (the complemented outcomes: each eigenvalue gains the sign (-1)^|support|,
+    # Stats!ComplementLaw) - the value must be the sample mean of the histogram that is passed, whatever was passed before
+    items = list(counts.items())
+    if len(items) >= 2:
+        rev = dict(reversed(items))
+        buf = dict(items)
+        flip = {"".join("1" if ch == "0" else "0" for ch in k_): v for k_, v in items}
+        for i, t in enumerate(c["op"]):
+            wantf = (tallies[i][0] - tallies[i][1]) / N
+            a = get_expectation_value_from_frequencies(t["sup"], dict(items))
+            b = get_expectation_value_from_frequencies(t["sup"], rev)
+            d0 = get_expectation_value_from_frequencies(t["sup"], buf)
+            buf.clear()
+            buf.update(flip)
+            d1 = get_expectation_value_from_frequencies(t["sup"], buf)
+            buf.clear()
+            buf.update(items)
+            sgn = -1 if len(t["sup"]) % 2 else 1
+            if abs(a - wantf) > tol or abs(b - wantf) > tol or abs(d0 - wantf) > tol or abs(d1 - sgn * wantf) > tol:
+                out.append(("from-frequencies:history", "%s: expectation from frequencies on %s: %s in listed order, %s with the same outcomes inserted in reverse order, %s / %s on one dictionary object before / after it was refilled with the complemented outcomes; sample means %s, %s, %s, %s" % (desc, t["sup"], a, b, d0, d1, wantf, wantf, wantf, sgn * wantf)))
+        mrev = Measurements.from_counts(rev)
+        evr = mrev.get_expectation_values(op)
+        if any(abs(complex(evr.values[i]) - means[i]) > tol for i in range(k)) or np.max(np.abs(np.asarray(evr.correlations[0]) - corr)) > tol:
+            out.append(("means:reordered", "%s: the same histogram listed in reverse order gives values %s / correlations %s, sample statistics %s / %s" % (desc, list(evr.values), np.asarray(evr.correlations[0]).real.tolist(), means, corr.tolist())))
     for i, t in enumerate(c["op"]):
         f = get_expectation_value_from_frequencies(t["sup"], counts)
         if abs(f - (tallies[i][0] - tallies[i][1]) / N) > tol:
